@@ -22,8 +22,12 @@ MANIFEST = dict(
          "pair list is fresh, sorting by ascending separation precedes truncation, truncation happens only for maxmatch > 0 and "
          "keeps the first maxmatch; (5) file and memory outputs emit the same three items per pair from the same loop; the "
          "fprintf format agrees with the pair reader's dtype and delimiter; output arrays are int64/int64/float64 filled in order; "
-         "(6) python: both point sets become fresh native float64 1-d arrays, sizes are checked, the one-shot method builds a "
-         "Matcher on the second set at the tree's depth and matches the first set against it with maxmatch and file forwarded; "
+         "(6) python: wherever a coordinate / radius argument is handed to the compiled extension (followed through the functions and methods "
+         "of the module it is passed to) it is a native float64 ndarray with at least one dimension on every path (abstract interpretation over a "
+         "finite domain of array kinds; a dtype test counts only if it implies native byte order), the arrays the C++ Matcher keeps are private copies, "
+         "an array that the C++ side walks through its bare data pointer instead of its strides is a new contiguous array; sizes are checked; the compiled "
+         "Matcher the one-shot method constructs receives (own depth, ra2, dec2) and the value returned is what the compiled match gives for "
+         "(ra1, dec1, radius, maxmatch, checked file name), whichever python entry points of the Matcher class are used on the way; "
          "(7) the separation is identically 0 for identical points, in degrees, equals the great-circle formula and is computed "
          "by a small-angle-stable form (not the arc cosine of a cosine: its error 1.1e-16/theta exceeds the property's 1e-9 "
          "degree margin below 4e-4 degrees, and radii down to 1e-6 degrees are in the quantifier); (8) none missing, necessary conditions: "
@@ -53,8 +57,7 @@ def run(chk):
     chk.floor = 55
     decls = cfront.load_tu("htmc")
     fs = cfront.functions(decls)
-    HELPERS.clear()
-    HELPERS.update({k: v for k, v in fs.items() if "::" not in k})
+    set_tu(decls, fs)
     for nm in ("Matcher::match", "Matcher::init_hmap", "Matcher::Matcher", "gcirc", "PAIR_INFO_ORDERING::operator()"):
         if nm not in fs:
             raise AnalysisError("C++ anchor %s not found in htmc.cc" % nm)
@@ -91,6 +94,85 @@ def ref_desc(n):
 
 
 HELPERS = {}      # functions of the translation unit (set by run): lets array_read see through small accessor helpers
+GLOBALS = {}      # file-level constants of the translation unit: name -> initialiser expression
+
+
+def set_tu(decls, fs):
+    """remember the translation unit's own free functions and file-level constants (used by array_read and LowerH)"""
+    HELPERS.clear()
+    HELPERS.update({k: v for k, v in fs.items() if "::" not in k})
+    GLOBALS.clear()
+    for d in decls:
+        if d.get("kind") == "VarDecl" and d.get("name") and init_of(d) is not None and "const" in (d.get("type") or {}).get("qualType", ""):
+            GLOBALS[d["name"]] = init_of(d)
+
+
+class LowerH(csymx.Lower):
+    """csymx.Lower that also reads: a call of one of the translation unit's own free functions whose body lowers to return terms (the
+    term with the arguments substituted stands for the call: conversion helpers like deg2rad(x), cos_radius(x, true)), file-level
+    constants (their initialiser), and C++ bool literals"""
+
+    def __init__(self, fn, symbols=None, depth=0):
+        csymx.Lower.__init__(self, fn, symbols)
+        self.depth = depth
+
+    def expr(self, n):
+        k = n.get("kind")
+        if k == "CXXBoolLiteralExpr":
+            return sp.Integer(1 if n.get("value") else 0)
+        if k == "CallExpr":
+            name = callee_name(n)
+            h = HELPERS.get(name) if name and name not in csymx.MATH else None
+            if h is not None and h.get("kind") == "FunctionDecl" and cfront.has_body(h) and self.depth < 4:
+                ps = cfront.params_of(h)
+                args = [self.expr(a) for a in cfront.call_args(n)]
+                if len(ps) == len(args):
+                    try:
+                        L = LowerH(h, depth=self.depth + 1)
+                        for p_, a_ in zip(ps, args):
+                            L.env[p_] = a_
+                        t = csymx.merged_return(L.run(cfront.body_of(h).get("inner", []) or []))
+                        if t is not None:
+                            return t
+                    except (AnalysisError, TypeError, ValueError, KeyError):
+                        pass
+                return sp.Function(name)(*args)
+        if k == "DeclRefExpr":
+            nm = n.get("referencedDecl", {}).get("name")
+            if nm not in self.env and nm in GLOBALS and n.get("referencedDecl", {}).get("kind") == "VarDecl" and self.depth < 6:
+                try:
+                    G = LowerH(self.fn, depth=self.depth + 1)
+                    G.env = {}
+                    return G.expr(GLOBALS[nm])
+                except (AnalysisError, TypeError, ValueError, KeyError):
+                    pass
+        return csymx.Lower.expr(self, n)
+
+
+def lower_function_h(fn):
+    L = LowerH(fn)
+    return L.run(cfront.body_of(fn).get("inner", []) or []), L
+
+
+def stmt_terms_h(fn):
+    """[(variable, term)] for every plain assignment and every initialised declaration of the function, each right-hand side lowered on
+    its own with all variables left symbolic"""
+    L = LowerH(fn)
+    L.env = {}
+    out = []
+    for x in walk(cfront.body_of(fn)):
+        lhs = rhs = None
+        if x.get("kind") == "BinaryOperator" and x.get("opcode") == "=":
+            lhs, rhs = render(x["inner"][0]), x["inner"][1]
+        elif x.get("kind") == "VarDecl" and x.get("name") and init_of(x) is not None:
+            lhs, rhs = x["name"], init_of(x)
+        if rhs is None:
+            continue
+        try:
+            out.append((lhs, L.expr(rhs)))
+        except (AnalysisError, TypeError, ValueError, KeyError):
+            out.append((lhs, None))
+    return out
 
 
 def array_read(expr):
@@ -131,6 +213,44 @@ def _array_read_direct(expr):
     if arr is None or idx is None:
         return None
     return arr, idx
+
+
+def unstrided_reads(decl):
+    """array objects (('param', name) / ('member', name)) whose elements the function reaches through the bare data pointer
+    (`p = (T *) PyArray_DATA(a); ... p[i]`, `*(p + i)`, `*p++`), i.e. without the array's strides - right only for a contiguous array;
+    element access through PyArray_GETPTR1 (bytes + i * strides[0]) is not in this set"""
+    body = cfront.body_of(decl)
+    alias, ptrs = {}, {}
+    defs = []
+    for x in walk(body):
+        if x.get("kind") == "VarDecl" and x.get("name") and init_of(x) is not None:
+            defs.append((x["name"], init_of(x)))
+        elif x.get("kind") == "BinaryOperator" and x.get("opcode") == "=" and strip(x["inner"][0]).get("kind") == "DeclRefExpr":
+            defs.append((render(strip(x["inner"][0])), x["inner"][1]))
+    for v, rhs in defs:
+        rd = ref_desc(rhs)
+        if rd[0] in ("param", "member"):
+            alias[v] = rd
+    for v, rhs in defs:
+        calls = [y for y in walk(rhs) if y.get("kind") == "CallExpr" and callee_name(y) in ("PyArray_DATA", "PyArray_BYTES")]
+        if calls and not any(y.get("kind") == "CallExpr" and callee_name(y) == "PyArray_STRIDES" for y in walk(rhs)):
+            rd = ref_desc(cfront.call_args(calls[0])[0])
+            if rd[0] == "local" and rd[1] in alias:
+                rd = alias[rd[1]]
+            if rd[0] in ("param", "member"):
+                ptrs[v] = rd
+    used = set()
+    for x in walk(body):
+        k = x.get("kind")
+        if k == "ArraySubscriptExpr":
+            b = strip(x["inner"][0])
+            if b.get("kind") == "DeclRefExpr" and render(b) in ptrs:
+                used.add(ptrs[render(b)])
+        elif k == "UnaryOperator" and x.get("opcode") in ("*", "++", "--"):
+            for y in walk(x["inner"][0]):
+                if y.get("kind") == "DeclRefExpr" and render(y) in ptrs:
+                    used.add(ptrs[render(y)])
+    return used
 
 
 def init_of(vardecl):
@@ -453,29 +573,49 @@ class MatchFn:
         chk.ob("R12.2", "match::cover-centre-is-the-filtered-point", okp, self.w(n), "the cap is centred on the same (ra, dec) variables that the distance filter uses (%s)" % a[:2])
         dvar = a[2]
         dd = self.defs_at(n, dvar)
-        good = []
+        # every definition of the cap parameter that reaches the call, as a term: cos(k * rad) with k = pi/180, whether written in place,
+        # with a macro, or through a conversion helper of this file (deg2rad(rad), cos_radius(rad, true))
+        good, wrong, unk = [], [], []
+        rsym = sp.Symbol(self.rvar)
         for dn, rhs in dd:
-            r = strip(rhs)
-            if callee_name(r) == "cos":
-                arg = strip(cfront.call_args(r)[0])
-                if arg.get("kind") == "BinaryOperator" and arg.get("opcode") == "*":
-                    l, rr = arg["inner"]
-                    if render(l) == self.rvar:
-                        try:
-                            val = float(csymx.Lower(self.decl).expr(rr).evalf())
-                        except Exception:
-                            val = None
-                        good.append((dn, val))
-        ok = len(good) == len([1 for dn, rhs in dd if strip(rhs).get("kind") not in ("FloatingLiteral", "IntegerLiteral")]) == 2 and all(
-            v is not None and abs(v - math.pi / 180) < 1e-15 for _, v in good)
+            if strip(rhs).get("kind") in ("FloatingLiteral", "IntegerLiteral"):
+                continue                # the initial value (no radius read yet)
+            try:
+                L = LowerH(self.decl)
+                L.env = {}
+                t = L.expr(rhs)
+            except (AnalysisError, TypeError, ValueError, KeyError):
+                unk.append(dn)
+                continue
+            k = None
+            if isinstance(t, sp.cos):
+                q = sp.simplify(t.args[0] / rsym)
+                if not q.free_symbols:
+                    try:
+                        k = float(q)
+                    except (TypeError, ValueError):
+                        k = None
+            if k is not None:
+                good.append((dn, k))
+            elif t.atoms(sp.core.function.AppliedUndef) or (isinstance(t, sp.Symbol) and t != rsym):
+                unk.append(dn)          # goes through something that is not followed
+            else:
+                wrong.append((dn, t))
+        if wrong or (good and not unk):
+            ok = not wrong and all(abs(v - math.pi / 180) < 1e-15 for _, v in good)
+        else:
+            ok = None
         chk.ob("R12.2", "match::cover-is-cos-of-filter-radius", ok, self.w(n),
-               "the cap parameter is cos(%s * pi/180) of the radius the filter compares with (conversion factors %s)" % (self.rvar, [v for _, v in good]))
+               "the cap parameter is cos(%s * pi/180) of the radius the filter compares with (conversion factors %s%s%s)"
+               % (self.rvar, [v for _, v in good], "" if not wrong else "; other definitions: %s" % [str(t)[:60] for _, t in wrong],
+                  "" if not unk else "; %d definition(s) not followed" % len(unk)))
         # recomputed with every change of rad: each radius read is followed in its block by the cosine
         pair_ok = True
         for rn in getattr(self, "rad_def_nodes", []):
             succ = [s for s, _ in cfg_succ(cfg, rn)]
             pair_ok = pair_ok and len(succ) == 1 and any(succ[0].id == dn.id for dn, _ in good)
-        chk.ob("R12.2", "match::cover-recomputed-with-radius", pair_ok and bool(good), self.w(n), "every read of a radius is immediately followed by the matching cos(rad) (no stale cap for per-point radii)")
+        chk.ob("R12.2", "match::cover-recomputed-with-radius", (pair_ok if good and not unk else None) if getattr(self, "rad_def_nodes", []) else None, self.w(n),
+               "every read of a radius is immediately followed by the matching cos(rad) (no stale cap for per-point radii)")
         # intersect -> both lists -> idlist -> hmap lookup
         inter = [(m, x) for m in cfg.nodes if isinstance(m.c, dict) for x in walk(m.c) if x.get("kind") == "CXXMemberCallExpr" and callee_name(x) == "intersect"]
         ok = len(inter) == 1 and view.dominates(n, inter[0][0])
@@ -488,30 +628,53 @@ class MatchFn:
             oki = len(idxd) == 1 and "htm_interface.index()" in render(idxd[0][1])
             chk.ob("R12.2", "match::index-from-own-interface", oki, self.w(inter[0][0]), "the intersection runs on this matcher's own htm_interface index (same depth as the id map)")
         chk.ob("R12.2", "match::intersect-after-cap", ok, self.where, "the triangle intersection follows the cap definition and yields two lists %s" % lists)
-        # every list is copied completely into the candidate list
-        copied = {}
-        cand = None
-        for m in cfg.nodes:
-            if m.kind == "stmt" and isinstance(m.c, dict):
-                c = strip(m.c)
-                if c.get("kind") in ("BinaryOperator", "CXXOperatorCallExpr") and "=" in (c.get("opcode", ""), (callee_name(c) or "").replace("operator", "")):
-                    txt = render(c)
-                    for L in lists:
-                        if "(%s () " % L in txt:
-                            lpn = [b for b, lab in view.controlling_branches(m) if b.kind == "loop" and lab == "T"]
-                            bound = render(lpn[0].c) if lpn else ""
-                            copied[L] = ("%s.length()" % L) in bound
-                            cand = txt.split("[")[0].lstrip("(")
-        chk.ob("R12.2", "match::full-and-partial-triangles-are-candidates", len(lists) == 2 and all(copied.get(L) for L in lists), self.where,
-               "both the fully-inside and the partially-overlapping triangle lists are copied in full into the candidate list (%s)" % copied)
-        nf = [(m, r) for m in cfg.nodes for v, r in node_defs(m) if lists and all(("%s.length()" % L) in render(r) for L in lists) and strip(r).get("opcode") == "+"]
-        chk.ob("R12.2", "match::candidate-count-is-sum", len(nf) == 1, self.where, "the number of candidate triangles is the sum of both list lengths")
+        # every list is copied completely into the candidate list: in this function or in a helper of this file that is given the list
+        copies = list_copies(getattr(self, "fs", {}), self.decl, lists) if len(lists) == 2 else {}
+        common = set.intersection(*[copies.get(L, set()) for L in lists]) if len(lists) == 2 else set()
+        cand = sorted(common)[0] if common else None
+        if common:
+            okc = True
+            # a candidate list that outlives the iteration (declared outside the loop over the input points and appended to) has to be
+            # emptied for every point, otherwise the triangles of earlier points are searched again and pairs are reported twice
+            olp, _iv = self.outer_loop()
+            body = loop_body(cfg, view, olp)
+            if cand not in _declared_in(cfg, body) and any(("%s.push_back(" % cand) in render(m.c) or ("(%s," % cand) in render(m.c).replace(" ", "")
+                                                            or (",%s)" % cand) in render(m.c).replace(" ", "") for m in body if isinstance(m.c, dict)):
+                if not container_cleared(getattr(self, "fs", {}), body, cand):
+                    okc = None
+        else:
+            # positively dropped: a list that is mentioned nowhere but in its declaration and in the intersect call, while the other is copied
+            text = [render(m.c) for m in cfg.nodes if isinstance(m.c, dict) and m is not (inter[0][0] if inter else None)]
+            unused = [L for L in lists if not any(("%s." % L) in t or ("(%s () " % L) in t or ("(%s)" % L) in t or (", %s" % L) in t or ("(%s," % L) in t for t in text)]
+            okc = False if (unused and any(copies.get(L) for L in lists)) else None
+        chk.ob("R12.2", "match::full-and-partial-triangles-are-candidates", okc if len(lists) == 2 else None, self.where,
+               "both the fully-inside and the partially-overlapping triangle lists are copied in full into the candidate list (%s)" % {L: sorted(v) for L, v in copies.items()})
+        # the number of candidates: the sum of both lengths, or the size of the candidate container itself
+        nf = [(m, v, "sum") for m in cfg.nodes for v, r in node_defs(m) if lists and all(("%s.length()" % L) in render(r) for L in lists) and strip(r).get("opcode") == "+"]
+        if cand is not None:
+            nf += [(m, v, "size") for m in cfg.nodes for v, r in node_defs(m) if render(strip(r)) == "%s.size()" % cand]
+        partial = [(m, v) for m in cfg.nodes for v, r in node_defs(m) if lists and any(("%s.length()" % L) in render(r) for L in lists)
+                   and not all(("%s.length()" % L) in render(r) for L in lists) and view.dominates(inter[0][0], m)] if inter else []
         finds = [m for m in cfg.nodes if isinstance(m.c, dict) and "hmap.find(" in render(m.c) and any(view.dominates(q, m) for q in [inter[0][0]] if inter)]
-        ok = False
-        if finds and nf:
-            lp = [b for b, lab in view.controlling_branches(finds[0]) if b.kind == "loop" and lab == "T"]
-            ok = bool(lp) and render(lp[0].c).endswith("< %s)" % nf[0][0].c.get("inner", [{}])[0].get("name", "nfound")) if isinstance(nf[0][0].c, dict) else False
-        chk.ob("R12.2", "match::every-candidate-triangle-looked-up", ok, self.where, "the member map is consulted for each of the candidate triangles")
+        flp = [b for b, lab in view.controlling_branches(finds[0]) if b.kind == "loop" and lab == "T"] if finds else []
+        fcond = render(flp[0].c) if flp and isinstance(flp[0].c, dict) else ""
+        if len(nf) == 1:
+            okn = True
+        elif any(fcond.endswith("< %s)" % v) for _, v in partial):
+            okn = False             # the lookup loop is bounded by the length of one list only
+        else:
+            okn = None
+        chk.ob("R12.2", "match::candidate-count-is-sum", okn, self.where, "the number of candidate triangles is the sum of both list lengths (or the size of the list they were copied into): %s"
+               % [(v, how) for _, v, how in nf])
+        ok = None
+        if finds and len(nf) == 1 and flp:
+            nv = nf[0][1]
+            import re as _re
+            if fcond.endswith("< %s)" % nv):
+                ok = True
+            elif _re.search(r"\b%s\b" % _re.escape(nv), fcond):
+                ok = False          # bounded by the count, but not by all of it
+        chk.ob("R12.2", "match::every-candidate-triangle-looked-up", ok, self.where, "the member map is consulted for each of the candidate triangles (lookup loop: `%s`)" % fcond)
 
     # ------------------------------------------------------------------
     def order_rule(self, cmp_decl):
@@ -727,6 +890,82 @@ class MatchFn:
                "result = (int64 array of input indices, int64 array of member indices, float64 array of separations), each of the counted length and filled element by element in order (%s / %s)" % (tup, stores))
 
 
+def container_cleared(fs, nodes, name, depth=0):
+    """is `name.clear()` among the given statements, or in the body of a free helper of the file that one of them hands `name` to"""
+    for m in nodes:
+        if not isinstance(m.c, dict):
+            continue
+        c = strip(m.c)
+        if c.get("kind") == "CXXMemberCallExpr" and callee_name(c) == "clear" and c["inner"][0].get("inner") and render(strip(c["inner"][0]["inner"][0])) == name:
+            return True
+        if c.get("kind") == "CallExpr" and depth < 2:
+            h = fs.get(callee_name(c) or "")
+            if h is not None and h.get("kind") == "FunctionDecl" and cfront.has_body(h):
+                hp = cfront.params_of(h)
+                args = [render(strip(a_)) for a_ in cfront.call_args(c)]
+                for i, a_ in enumerate(args):
+                    if a_ == name and i < len(hp):
+                        hg = cfront.CCFG(h)
+                        if container_cleared(fs, [x for x in hg.nodes if x.kind == "stmt"], hp[i], depth + 1):
+                            return True
+    return False
+
+
+def list_copies(fs, decl, srcs, depth=0):
+    """{list name: set of containers of `decl` that receive EVERY element of that list}: a statement `C[k] = L(i)` / `C.push_back(L(i))`
+    that runs unconditionally in a loop over all of L (`i < L.length()`, the bound written in place or held in a local), in this
+    function or in a free helper of the file that is handed L (then the helper's destination parameter is mapped back to the argument)"""
+    g = cfront.CCFG(decl)
+    v = g.view()
+    RIN, _ = v.reaching_defs()
+    out = {s: set() for s in srcs}
+    for m in g.nodes:
+        if m.kind != "stmt" or not isinstance(m.c, dict):
+            continue
+        c = strip(m.c)
+        if c.get("kind") == "CallExpr" and depth < 2:
+            h = fs.get(callee_name(c) or "")
+            if h is not None and h is not decl and h.get("kind") == "FunctionDecl" and cfront.has_body(h):
+                hp = cfront.params_of(h)
+                args = [render(strip(a_)) for a_ in cfront.call_args(c)]
+                passed = [(i, a_) for i, a_ in enumerate(args) if a_ in out and i < len(hp)]
+                if passed:
+                    sub = list_copies(fs, h, [hp[i] for i, _ in passed], depth + 1)
+                    for i, a_ in passed:
+                        for dst in sub.get(hp[i], ()):
+                            if dst in hp and hp.index(dst) < len(args):
+                                out[a_].add(args[hp.index(dst)])
+            continue
+        txt = render(c)
+        for L in srcs:
+            if ("(%s () " % L) not in txt:
+                continue
+            dst = None
+            if c.get("kind") == "CXXMemberCallExpr" and callee_name(c) == "push_back" and c["inner"][0].get("inner"):
+                dst = render(strip(c["inner"][0]["inner"][0]))
+            elif c.get("kind") in ("BinaryOperator", "CXXOperatorCallExpr") and "=" in (c.get("opcode", ""), (callee_name(c) or "").replace("operator", "")):
+                dst = txt.split("[")[0].lstrip("(").strip()
+            if not dst:
+                continue
+            ctl = v.controlling_branches(m)
+            lps = [b for b, lab in ctl if b.kind == "loop" and lab == "T"]
+            if not lps:
+                continue
+            lp = lps[-1] if len(lps) > 1 and any(q.id == lps[0].id for q, _ in v.controlling_branches(lps[-1])) else lps[0]
+            inner_ids = {b.id for b, _ in ctl} - {b.id for b, _ in v.controlling_branches(lp)} - {lp.id}
+            if any(b.kind == "branch" for b, _ in ctl if b.id in inner_ids):
+                continue            # copied only under a condition inside the loop: not every element
+            cond = render(lp.c) if isinstance(lp.c, dict) else ""
+            whole = ("%s.length()" % L) in cond
+            if not whole and isinstance(lp.c, dict) and lp.c.get("kind") == "BinaryOperator" and lp.c.get("opcode") in ("<", "!="):
+                bv = render(lp.c["inner"][1])
+                bd = [rhs for i in sorted(RIN.get(lp.id, {}).get(bv, ())) for var, rhs in node_defs(g.node(i)) if var == bv]
+                whole = bool(bd) and all(render(strip(r_)) == "%s.length()" % L for r_ in bd)
+            if whole:
+                out[L].add(dst)
+    return out
+
+
 def per_point_values_rule(chk, rule, fname, f, loop_ivar, inputs):
     """the value of a per-point input (radius, scale) and everything computed from it (search cap, logarithm) that is used for point i
     is that of point i: inside the loop over the first-set points such a variable is not used before its assignment of the same
@@ -924,14 +1163,14 @@ def hmap_rule(chk, fs):
 def gcirc_rule(chk, fn, decls):
     where = "esutil/htm/htmc.cc:%s" % fn.get("line", "?")
     ps = cfront.params_of(fn)
-    r, L = csymx.lower_function(fn)
+    r, L = lower_function_h(fn)
     ra1, dec1, ra2, dec2, deg = [sp.Symbol(p) for p in ps]
     same = [v for c, v in r if c == sp.And(sp.Eq(ra1, ra2), sp.Eq(dec1, dec2)) or c == sp.And(sp.Eq(dec1, dec2), sp.Eq(ra1, ra2))]
     chk.ob("R12.8", "gcirc::identical-points-exactly-zero", len(same) == 1 and same[0] == 0, where, "identical coordinates return exactly 0 before any trigonometry")
     # statement level: how is the angle obtained?
-    tab = csymx.stmt_rhs_table(fn)
+    tab = stmt_terms_h(fn)
     outer = []
-    for lhs, rhs, node in tab:
+    for lhs, rhs in tab:
         if rhs is not None and isinstance(rhs, (sp.acos, sp.asin, sp.atan2, sp.atan)):
             outer.append((lhs, rhs))
     kinds = sorted({type(t).__name__ for _, t in outer})
@@ -976,17 +1215,735 @@ def gcirc_rule(chk, fn, decls):
 
 
 # ---------------------------------------------------------------------------
-def _norm_f8(fi, names):
-    """does the function rebind each name to np.atleast_1d(name).astype('f8') before anything else uses it"""
-    got = {}
-    for x in walk_no_nested(fi.node):
-        if isinstance(x, ast.Assign) and len(x.targets) == 1 and isinstance(x.targets[0], ast.Name) and x.targets[0].id in names:
-            v = x.value
-            ok = isinstance(v, ast.Call) and call_name(v) == "astype" and v.args and const_value(v.args[0]) in ("f8", "float64") \
-                and kwarg(v, "copy") is None and isinstance(v.func.value, ast.Call) and call_name(v.func.value) in ("atleast_1d", "array", "asarray") \
-                and norm(v.func.value.args[0]) == x.targets[0].id
-            got.setdefault(x.targets[0].id, []).append(bool(ok))
-    return {n: got.get(n) == [True] for n in names}
+# ---------------------------------------------------------------------------
+# what a coordinate argument has become by the time it is handed on: abstract interpretation of the function over a finite domain
+# (covers every input; nothing is executed)
+# ---------------------------------------------------------------------------
+# atoms of the domain (a value is described by the set of atoms it may be):
+#   F8+  ndarray with >= 1 dimension, native float64, a private copy (made by a copying conversion)
+#   F8   ndarray with >= 1 dimension, native float64, possibly the caller's own array
+#   ARR  ndarray with >= 1 dimension whose dtype was not shown to be native float64 (as np.atleast_1d leaves it)
+#   BAD  ndarray with >= 1 dimension converted to another dtype
+#   RAW  the caller's object as given (scalar, list, any array)
+#   UNK  not recognised
+_F8P, _F8, _ARR, _BAD, _RAW, _UNK = "F8+", "F8", "ARR", "BAD", "RAW", "UNK"
+_UNKS = frozenset([_UNK])
+_NATIVE_F8_STR = ("f8", "float64", "d", "double", "=f8", "float", "float_")
+_NP_ARRAYERS = ("atleast_1d", "array", "asarray", "asanyarray", "ascontiguousarray", "require")   # accepted as giving an ndarray (the reviewed table)
+_NOT_SINKS = ("len", "isinstance", "print", "str", "repr", "type", "id", "hasattr", "getattr", "format", "tuple", "list")
+
+
+def _is_np(func):
+    d = dotted_name(func) or ""
+    return d.startswith(("np.", "numpy."))
+
+
+def _dtype_kind(e, fi, depth=0):
+    """'f8' when the expression denotes the native float64 dtype, 'other' when it denotes another dtype, None when not recognised"""
+    if e is None or depth > 4:
+        return None
+    if isinstance(e, ast.Constant) and isinstance(e.value, str):
+        return "f8" if e.value in _NATIVE_F8_STR else "other"
+    if isinstance(e, ast.Name):
+        if e.id == "float":
+            return "f8"
+        if e.id in ("int", "bool", "complex", "object", "str"):
+            return "other"
+        sd = rules.single_defs(fi.node)
+        if e.id in sd:
+            return _dtype_kind(sd[e.id], fi, depth + 1)
+        if e.id in fi.module.consts and e.id not in fi.params:
+            return _dtype_kind(fi.module.consts[e.id], fi, depth + 1)
+        return None
+    if isinstance(e, ast.Attribute) and _is_np(e):
+        if e.attr in ("float64", "double", "float_"):
+            return "f8"
+        if e.attr in ("float32", "float16", "longdouble", "int64", "int32", "int16", "int8", "uint64", "uint32", "uint16", "uint8", "intp", "single",
+                      "complex128", "complex64", "bool_", "object_", "half", "longlong", "int_"):
+            return "other"
+        return None
+    if isinstance(e, ast.Call) and call_name(e) == "dtype" and _is_np(e.func) and len(e.args) == 1 and not e.keywords:
+        return _dtype_kind(e.args[0], fi, depth + 1)
+    return None
+
+
+def _dtype_subject(e):
+    """name V when e is `V.dtype`"""
+    if isinstance(e, ast.Attribute) and e.attr == "dtype" and isinstance(e.value, ast.Name):
+        return e.value.id
+    return None
+
+
+def _test_facts(test, pol, fi):
+    """{variable: set of tags} that hold on the edge on which `test` has the truth value `pol`.  Tags: NATIVE (dtype equals the native
+    float64 dtype), ISNATIVE (native byte order), SUBF8 (some float64, any byte order), KINDF, SIZE8, UNKNOWN (a condition on the
+    dtype that is not in the table: nothing is concluded about the variable on this edge)."""
+    out = {}
+
+    def add(v, tag):
+        out.setdefault(v, set()).add(tag)
+
+    def mentions_dtype(e):
+        return {x.value.id for x in ast.walk(e) if isinstance(x, ast.Attribute) and x.attr == "dtype" and isinstance(x.value, ast.Name)} | \
+               {a.id for x in ast.walk(e) if isinstance(x, ast.Call) and not _is_np(x.func) and call_name(x) not in _NOT_SINKS
+                and not (isinstance(x.func, ast.Attribute) and isinstance(x.func.value, ast.Name)) for a in x.args if isinstance(a, ast.Name)}
+
+    def atom(e, p, definite):
+        tags = []
+        if isinstance(e, ast.Compare) and len(e.ops) == 1:
+            op, a, b = e.ops[0], e.left, e.comparators[0]
+            for x, y in ((a, b), (b, a)):
+                v = _dtype_subject(x)
+                if v is not None and isinstance(op, (ast.Eq, ast.NotEq, ast.Is, ast.IsNot)):
+                    k = _dtype_kind(y, fi)
+                    eq = isinstance(op, (ast.Eq, ast.Is)) == p
+                    if k == "f8":
+                        tags.append((v, "NATIVE" if eq else None))
+                    elif k == "other":
+                        tags.append((v, None))
+                    else:
+                        tags.append((v, "UNKNOWN"))
+                if isinstance(x, ast.Attribute) and _dtype_subject(x.value) is not None and isinstance(op, (ast.Eq, ast.NotEq)):
+                    v = _dtype_subject(x.value)
+                    eq = isinstance(op, ast.Eq) == p
+                    val = const_value(y)
+                    if x.attr == "kind":
+                        tags.append((v, "KINDF" if eq and val == "f" else None))
+                    elif x.attr == "itemsize":
+                        tags.append((v, "SIZE8" if eq and val == 8 else None))
+                    elif x.attr == "byteorder":
+                        tags.append((v, "ISNATIVE" if eq and val == "=" else None))
+                    elif x.attr in ("char", "name", "type"):
+                        tags.append((v, "SUBF8" if eq and (val in ("d", "float64") or _dtype_kind(y, fi) == "f8") else None))
+                    else:
+                        tags.append((v, "UNKNOWN"))
+        elif isinstance(e, ast.Attribute) and e.attr == "isnative" and _dtype_subject(e.value) is not None:
+            tags.append((_dtype_subject(e.value), "ISNATIVE" if p else None))
+        elif isinstance(e, ast.Call) and call_name(e) == "issubdtype" and _is_np(e.func) and len(e.args) == 2 and _dtype_subject(e.args[0]) is not None:
+            tags.append((_dtype_subject(e.args[0]), "SUBF8" if p and _dtype_kind(e.args[1], fi) == "f8" else None))
+        if not tags:
+            for v in mentions_dtype(e):
+                tags.append((v, "UNKNOWN"))
+        for v, t in tags:
+            if t == "UNKNOWN":
+                add(v, "UNKNOWN")
+            elif t is not None and definite:
+                add(v, t)
+
+    def go(e, p, definite):
+        if isinstance(e, ast.UnaryOp) and isinstance(e.op, ast.Not):
+            return go(e.operand, not p, definite)
+        if isinstance(e, ast.BoolOp):
+            conj = isinstance(e.op, ast.And) == p
+            for v in e.values:
+                go(v, p, definite and conj)
+            return
+        atom(e, p, definite)
+    go(test, pol, True)
+    return out
+
+
+def _refine(state, test, pol, fi):
+    facts = _test_facts(test, pol, fi)
+    if not facts:
+        return state
+    st = dict(state)
+    for v, tags in facts.items():
+        if v not in st:
+            continue
+        native = "NATIVE" in tags or ("ISNATIVE" in tags and ("SUBF8" in tags or {"KINDF", "SIZE8"} <= tags))
+        new = set()
+        for a in st[v]:
+            if native:
+                new.add({_ARR: _F8, _RAW: _UNK, _BAD: _F8}.get(a, a))
+            elif "UNKNOWN" in tags:
+                new.add({_ARR: _UNK, _RAW: _UNK}.get(a, a))
+            else:
+                new.add(a)
+        st[v] = frozenset(new)
+    return st
+
+
+class _ArrayFlow:
+    """forward dataflow over the statement CFG of one python function in the domain above"""
+
+    def __init__(self, fi, init, depth=0):
+        self.fi = fi
+        self.depth = depth
+        self.cfg = rules.cfg_of(fi)
+        cfg = self.cfg
+        self.IN = {cfg.entry.id: dict(init)}
+        todo = [cfg.entry.id]
+        rounds = 0
+        while todo:
+            rounds += 1
+            if rounds > 20000:
+                raise AnalysisError("array-kind dataflow of %s did not converge" % fi.qualname)
+            i = todo.pop()
+            n = cfg.node(i)
+            out = self.transfer(n, self.IN[i])
+            for j in cfg.g.successors(i):
+                labs = cfg.g[i][j]["labels"]
+                o = out
+                test = None
+                if n.kind == "branch":
+                    test = n.ast.test
+                elif n.kind == "loop" and isinstance(n.ast, ast.While):
+                    test = n.ast.test
+                if test is not None and len(labs - {"back"}) == 1 and next(iter(labs - {"back"})) in ("T", "F"):
+                    o = _refine(out, test, "T" in labs, fi)
+                old = self.IN.get(j)
+                if old is None:
+                    self.IN[j] = dict(o)
+                    todo.append(j)
+                else:
+                    ch = False
+                    for k, v in o.items():
+                        nv = old.get(k, frozenset()) | v
+                        if nv != old.get(k):
+                            old[k] = nv
+                            ch = True
+                    if ch:
+                        todo.append(j)
+
+    # -- expressions ------------------------------------------------------
+    def value(self, e, st):
+        if isinstance(e, ast.Name):
+            return st.get(e.id, _UNKS)
+        if isinstance(e, ast.IfExp):
+            return self.value(e.body, _refine(st, e.test, True, self.fi)) | self.value(e.orelse, _refine(st, e.test, False, self.fi))
+        if not isinstance(e, ast.Call):
+            return _UNKS
+        nm = call_name(e)
+        f = e.func
+        if isinstance(f, ast.Attribute) and nm == "astype" and not _is_np(f):
+            dt = e.args[0] if e.args else kwarg(e, "dtype")
+            cp = kwarg(e, "copy")
+            copies = cp is None or const_value(cp) is True
+            return self._convert(self.value(f.value, st), _dtype_kind(dt, self.fi), copies, raw_ok=False)
+        if isinstance(f, ast.Attribute) and nm == "copy" and not e.args and not _is_np(f):
+            return frozenset({_F8: _F8P, _RAW: _UNK}.get(a, a) for a in self.value(f.value, st))
+        if _is_np(f) and nm in _NP_ARRAYERS and e.args:
+            base = self.value(e.args[0], st)
+            dt = kwarg(e, "dtype")
+            if dt is None and nm != "atleast_1d" and len(e.args) >= 2:
+                dt = e.args[1]
+            if dt is None:
+                copies = nm == "array" and (kwarg(e, "copy") is None or const_value(kwarg(e, "copy")) is True)
+                return frozenset({_RAW: _ARR, _F8: _F8P if copies else _F8}.get(a, a) for a in base)
+            cp = kwarg(e, "copy")
+            copies = nm == "array" and (cp is None or const_value(cp) is True)
+            return self._convert(base, _dtype_kind(dt, self.fi), copies, raw_ok=True)
+        h = self._helper(e)
+        if h is not None and self.depth < 3:
+            hf, bound = h
+            init = {p: _UNKS for p in hf.params}
+            for p, a in bound.items():
+                init[p] = self.value(a, st)
+            try:
+                sub = _ArrayFlow(hf, init, self.depth + 1)
+            except AnalysisError:
+                return _UNKS
+            return sub.returned()
+        return _UNKS
+
+    def value_tuple(self, call, st, k):
+        """values of `a, b = helper(x, y)`: position by position over the tuples the helper returns"""
+        h = self._helper(call)
+        unk = [_UNKS] * k
+        if h is None or self.depth >= 3:
+            return unk
+        hf, bound = h
+        init = {p: _UNKS for p in hf.params}
+        for p, a in bound.items():
+            init[p] = self.value(a, st)
+        try:
+            sub = _ArrayFlow(hf, init, self.depth + 1)
+        except AnalysisError:
+            return unk
+        out = [set() for _ in range(k)]
+        seen = False
+        for n in sub.cfg.nodes:
+            if n.kind == "return" and n.id in sub.IN:
+                v = n.ast.value
+                if not (isinstance(v, ast.Tuple) and len(v.elts) == k):
+                    return unk
+                seen = True
+                for i, e in enumerate(v.elts):
+                    out[i] |= sub.value(e, sub.IN[n.id])
+        return [frozenset(o) for o in out] if seen else unk
+
+    @staticmethod
+    def _convert(base, kind, copies, raw_ok):
+        out = set()
+        for a in base:
+            if a == _UNK or (a == _RAW and not raw_ok):
+                out.add(_UNK)
+            elif kind is None:
+                out.add(_UNK)
+            elif kind == "other":
+                out.add(_BAD)
+            elif copies or a in (_F8P, _BAD):
+                out.add(_F8P)         # a conversion that copies, or that has to convert (another dtype), yields a new array
+            else:
+                out.add(_F8)
+        return frozenset(out)
+
+    def _helper(self, call):
+        """(FuncInfo, {parameter: argument expr}) of a call of a function / method of the same module"""
+        f = call.func
+        fi = self.fi
+        tgt = None
+        skip = 0
+        if isinstance(f, ast.Name) and f.id in fi.module.funcs:
+            tgt = fi.module.funcs[f.id]
+        elif isinstance(f, ast.Attribute) and isinstance(f.value, ast.Name) and f.value.id in ("self", "cls") and fi.cls and ("%s.%s" % (fi.cls, f.attr)) in fi.module.funcs:
+            tgt = fi.module.funcs["%s.%s" % (fi.cls, f.attr)]
+            skip = 1
+        if tgt is None or any(isinstance(a, ast.Starred) for a in call.args) or any(k.arg is None for k in call.keywords):
+            return None
+        ps = [p for p in tgt.params if not p.startswith("*")][skip:]
+        bound = {}
+        for p, a in zip(ps, call.args):
+            bound[p] = a
+        for k in call.keywords:
+            if k.arg in ps:
+                bound[k.arg] = k.value
+        return tgt, bound
+
+    def returned(self):
+        out = set()
+        cfg = self.cfg
+        for n in cfg.nodes:
+            if n.kind == "return" and n.id in self.IN:
+                out |= self.value(n.ast.value, self.IN[n.id]) if n.ast.value is not None else _UNKS
+        if cfg.exit.id in self.IN and any("fall" in cfg.g[p][cfg.exit.id]["labels"] for p in cfg.g.predecessors(cfg.exit.id) if p in self.IN):
+            out |= _UNKS
+        return frozenset(out) if out else _UNKS
+
+    # -- statements -------------------------------------------------------
+    def transfer(self, n, st):
+        a = n.ast
+        defs = self.cfg.defs_uses(n)[0] if a is not None else []
+        if a is None or n.kind in ("branch", "return", "raise"):
+            return st
+        st = dict(st)
+        if n.kind == "stmt" and isinstance(a, ast.Assign) and len(a.targets) == 1:
+            t = a.targets[0]
+            if isinstance(t, ast.Name):
+                st[t.id] = self.value(a.value, st)
+                return st
+            if isinstance(t, (ast.Tuple, ast.List)) and isinstance(a.value, (ast.Tuple, ast.List)) and len(t.elts) == len(a.value.elts) \
+                    and all(isinstance(x, ast.Name) for x in t.elts):
+                vals = [self.value(v, st) for v in a.value.elts]
+                for x, v in zip(t.elts, vals):
+                    st[x.id] = v
+                return st
+            if isinstance(t, (ast.Tuple, ast.List)) and isinstance(a.value, ast.Call) and all(isinstance(x, ast.Name) for x in t.elts):
+                vals = self.value_tuple(a.value, st, len(t.elts))
+                for x, v in zip(t.elts, vals):
+                    st[x.id] = v
+                return st
+            if isinstance(t, (ast.Attribute, ast.Subscript)):
+                # `v.dtype = ...`, `v.shape = ...`: the array is changed in place; an element store leaves kind and dtype alone
+                b = t.value
+                if isinstance(t, ast.Attribute) and isinstance(b, ast.Name) and b.id in st:
+                    st[b.id] = _UNKS
+                return st
+        if n.kind == "stmt" and isinstance(a, ast.AnnAssign) and isinstance(a.target, ast.Name) and a.value is not None:
+            st[a.target.id] = self.value(a.value, st)
+            return st
+        if n.kind == "stmt" and isinstance(a, ast.Expr) and isinstance(a.value, ast.Call) and isinstance(a.value.func, ast.Attribute) \
+                and isinstance(a.value.func.value, ast.Name) and a.value.func.attr in ("byteswap", "resize", "setflags", "sort", "fill", "partition"):
+            v = a.value.func.value.id
+            if v in st and a.value.func.attr in ("byteswap", "resize", "setflags"):
+                st[v] = _UNKS
+            return st
+        for d in defs:
+            st[d] = _UNKS
+        return st
+
+
+def _callee_of(fi, call, nid):
+    """where a call goes: ('ext', None, 0) to the compiled extension (a `super().m(...)` call, or `self.m(...)` with m not defined by the
+    python class: inherited from the compiled base); ('py', FuncInfo, n) to a function / constructor / method of this module, n leading
+    parameters (self, cls) not being call arguments; None for anything else (library, builtin, unknown object)"""
+    f = call.func
+    mod = fi.module
+    if isinstance(f, ast.Attribute) and isinstance(f.value, ast.Call) and call_name(f.value) == "super":
+        return ("ext", None, 0)
+    if isinstance(f, ast.Name):
+        if f.id in mod.funcs:
+            return ("py", mod.funcs[f.id], 0)
+        c = f.id if f.id in mod.classes else (fi.cls if f.id == "cls" else None)
+        if c and (c + ".__init__") in mod.funcs:
+            return ("py", mod.funcs[c + ".__init__"], 1)
+        return None
+    if isinstance(f, ast.Attribute) and isinstance(f.value, ast.Name):
+        base, m = f.value.id, f.attr
+        cls = None
+        if base in ("self", "cls") and fi.cls:
+            cls = fi.cls
+            if (cls + "." + m) not in mod.funcs:
+                return ("ext", None, 0)
+        elif base in mod.classes:
+            cls = base
+        else:
+            cfg, RIN = _py_rin(fi)
+            ds = RIN.get(nid, {}).get(base, set())
+            if len(ds) == 1 and next(iter(ds)) != cfg.entry.id:
+                a = cfg.node(next(iter(ds))).ast
+                if isinstance(a, ast.Assign) and isinstance(a.value, ast.Call):
+                    g = a.value.func
+                    if isinstance(g, ast.Name) and g.id in mod.classes:
+                        cls = g.id
+                    elif isinstance(g, ast.Attribute) and isinstance(g.value, ast.Name) and g.value.id in mod.classes:
+                        cls = g.value.id
+        if cls and (cls + "." + m) in mod.funcs:
+            t = mod.funcs[cls + "." + m]
+            static = any(norm(d) == "staticmethod" for d in t.node.decorator_list)
+            return ("py", t, 0 if static else 1)
+    return None
+
+
+def _extension_atoms(fi, flow, v, depth=0, stack=()):
+    """(atoms, n): what the variable `v` of `fi` may be at the n places where it is handed to the compiled extension, directly or through
+    functions / methods of this module it is passed to (they are analysed with what they are given)"""
+    cfg = flow.cfg
+    out, cnt = set(), 0
+    for n in cfg.nodes:
+        if n.id not in flow.IN:
+            continue
+        a = n.ast
+        for c in rules.stmts_calls(n):
+            pos = [i for i, x in enumerate(c.args) if isinstance(x, ast.Name) and x.id == v]
+            kws = [k.arg for k in c.keywords if k.arg is not None and isinstance(k.value, ast.Name) and k.value.id == v]
+            if not pos and not kws:
+                continue
+            if _is_np(c.func) or call_name(c) in _NOT_SINKS:
+                continue
+            if isinstance(a, ast.Assign) and a.value is c and any(isinstance(t_, ast.Name) and t_.id == v for t in a.targets for t_ in rules._flat_targets(t)):
+                continue            # `v = helper(v)` / `v, w = helper(v, w)`: a conversion step, followed by value()
+            k = _callee_of(fi, c, n.id)
+            if k is None:
+                continue
+            st = flow.IN[n.id]
+            if k[0] == "ext":
+                out |= st.get(v, _UNKS)
+                cnt += 1
+                continue
+            callee, skip = k[1], k[2]
+            if depth >= 3 or callee.qualname in stack or any(isinstance(x, ast.Starred) for x in c.args) or any(kk.arg is None for kk in c.keywords):
+                out |= _UNKS
+                cnt += 1
+                continue
+            ps = [p for p in callee.params if not p.startswith("*")][skip:]
+            init = {p: _UNKS for p in callee.params}
+            mine = []
+            for i, x in enumerate(c.args):
+                if i < len(ps) and isinstance(x, ast.Name):
+                    init[ps[i]] = st.get(x.id, _UNKS)
+                    if x.id == v:
+                        mine.append(ps[i])
+            for kk in c.keywords:
+                if kk.arg in ps and isinstance(kk.value, ast.Name):
+                    init[kk.arg] = st.get(kk.value.id, _UNKS)
+                    if kk.value.id == v:
+                        mine.append(kk.arg)
+            try:
+                sub = _ArrayFlow(callee, init, depth + 1)
+            except AnalysisError:
+                out |= _UNKS
+                cnt += 1
+                continue
+            for p in mine:
+                o, k2 = _extension_atoms(callee, sub, p, depth + 1, stack + (fi.qualname,))
+                out |= o
+                cnt += k2
+    return out, cnt
+
+
+def f8_atoms(fi, names):
+    """{name: (atoms the argument may be where it is handed to the compiled extension, number of such places)}; ({UNK}, 0) when the
+    function could not be analysed"""
+    try:
+        flow = _ArrayFlow(fi, {p: (frozenset([_RAW]) if not p.startswith("*") else _UNKS) for p in fi.params})
+    except AnalysisError:
+        return {n: (set(_UNKS), 0) for n in names}
+    return {v: _extension_atoms(fi, flow, v) for v in names}
+
+
+def _norm_f8(fi, names, private=()):
+    """{name: True / False / None}: is the argument `name`, wherever it is handed to the compiled extension - by this function or by the
+    functions / methods of the module it passes it to - a native float64 ndarray with at least one dimension on every path, and, for the
+    names in `private`, a copy of the caller's data (the C++ object keeps a reference to it)?  True: on every path; False: some path
+    hands over the caller's object unconverted, an array whose dtype was not made (or tested to be) native float64, or - for `private` -
+    possibly the caller's own array; None: a construct on the way is not in the table, or no hand-over was found."""
+    res = {}
+    for v, (seen, nsink) in f8_atoms(fi, names).items():
+        if not nsink:
+            res[v] = None
+            continue
+        good = {_F8P} if v in private else {_F8P, _F8}
+        bad = {_RAW, _ARR, _BAD} | ({_F8} if v in private else set())
+        res[v] = True if seen <= good else (False if seen & bad else None)
+    return res
+
+
+# ---------------------------------------------------------------------------
+# which caller value reaches the compiled extension: provenance of an argument through conversions and same-class helper methods
+# ---------------------------------------------------------------------------
+_rd_cache = {}
+
+
+def _py_rin(fi):
+    c = _rd_cache.get(id(fi.node))
+    if c is None:
+        cfg = rules.cfg_of(fi)
+        c = (cfg, cfg.view().reaching_defs()[0])
+        _rd_cache[id(fi.node)] = c
+    return c
+
+
+_VALUE_KEEPING = ("check_filename", "str", "int", "index", "bool")      # calls that hand their first argument on as the same thing (file name, count, flag)
+
+
+def _origin(fi, e, nid, depth=0):
+    """what the value of expression `e`, evaluated at CFG node `nid` of `fi`, stands for: 'param:<name>' when on every path it is that
+    parameter, possibly after array / dtype / file-name / integer conversions; 'expr:<text>' for an argument-less method call or an attribute
+    of self; 'const:<repr>' for a literal; None for anything else"""
+    cfg, RIN = _py_rin(fi)
+    if depth > 10:
+        return None
+    if isinstance(e, ast.Constant):
+        return "const:%r" % (e.value,)
+    if isinstance(e, ast.Name):
+        defs = RIN.get(nid, {}).get(e.id)
+        if not defs:
+            return None
+        outs = set()
+        for d in defs:
+            if d == cfg.entry.id:
+                outs.add("param:" + e.id)
+                continue
+            a = cfg.node(d).ast
+            if isinstance(a, ast.Assign) and len(a.targets) == 1 and isinstance(a.targets[0], ast.Name) and a.targets[0].id == e.id:
+                outs.add(_origin(fi, a.value, d, depth + 1))
+            elif isinstance(a, ast.AnnAssign) and isinstance(a.target, ast.Name) and a.target.id == e.id and a.value is not None:
+                outs.add(_origin(fi, a.value, d, depth + 1))
+            else:
+                outs.add(None)
+        return outs.pop() if len(outs) == 1 else None
+    if isinstance(e, ast.IfExp):
+        a, b = _origin(fi, e.body, nid, depth + 1), _origin(fi, e.orelse, nid, depth + 1)
+        return a if a == b else None
+    if isinstance(e, ast.Call):
+        nm = call_name(e)
+        f = e.func
+        if isinstance(f, ast.Attribute) and nm in ("astype", "copy") and not _is_np(f):
+            return _origin(fi, f.value, nid, depth + 1)
+        if _is_np(f) and nm in _NP_ARRAYERS and e.args:
+            return _origin(fi, e.args[0], nid, depth + 1)
+        if nm in _VALUE_KEEPING and e.args and (isinstance(f, ast.Name) or dotted_name(f) == "operator.index"):
+            return _origin(fi, e.args[0], nid, depth + 1)
+        if not e.args and not e.keywords and (dotted_name(f) or "").startswith("self."):
+            return "expr:" + norm(e)
+        return None
+    if isinstance(e, ast.Attribute) and (dotted_name(e) or "").startswith("self."):
+        return "expr:" + norm(e)
+    return None
+
+
+def _param_deps(fi, e, nid):
+    """parameters of fi that the value of e at node nid is computed from (closure over reaching definitions)"""
+    cfg, RIN = _py_rin(fi)
+    out, seen = set(), set()
+    todo = [(e, nid)]
+    while todo:
+        x, at = todo.pop()
+        for nmn in [y for y in ast.walk(x) if isinstance(y, ast.Name) and isinstance(y.ctx, ast.Load)]:
+            for d in RIN.get(at, {}).get(nmn.id, ()):
+                if d == cfg.entry.id:
+                    out.add(nmn.id)
+                elif (nmn.id, d) not in seen:
+                    seen.add((nmn.id, d))
+                    a = cfg.node(d).ast
+                    v = getattr(a, "value", None)
+                    if isinstance(v, ast.AST):
+                        todo.append((v, d))
+    return out
+
+
+def _term(fi, e, nid, bound):
+    """the expression in the terms of the outermost caller: bound maps this function's parameters to such terms (None: identity)"""
+    o = _origin(fi, e, nid)
+    if o is not None and o.startswith("param:"):
+        p = o[6:]
+        if bound is None:
+            return o
+        if p in bound:
+            return bound[p]
+        if p in fi.defaults:
+            return _origin(fi, fi.defaults[p], nid) if isinstance(fi.defaults[p], ast.Constant) else None
+        return None
+    if o is not None and o.startswith("expr:") and bound is not None:
+        return "inner-" + o           # an attribute of the callee's own object, not of the caller's
+    if o is not None:
+        return o
+    deps = set()
+    for p in _param_deps(fi, e, nid):
+        t = ("param:" + p) if bound is None else bound.get(p)
+        if isinstance(t, tuple):
+            deps |= set(t[1])
+        elif t is not None:
+            deps.add(t)
+    return ("from", frozenset(deps))
+
+
+def _bind(callee, call, skip, term_of):
+    ps = [p for p in callee.params if not p.startswith("*")][skip:]
+    if any(isinstance(a, ast.Starred) for a in call.args) or any(k.arg is None for k in call.keywords) or len(call.args) > len(ps):
+        return None
+    bound = {}
+    for p, a in zip(ps, call.args):
+        bound[p] = term_of(a)
+    for k in call.keywords:
+        if k.arg not in ps or k.arg in bound:
+            return None
+        bound[k.arg] = term_of(k.value)
+    return bound
+
+
+def _is_super_call(c, target):
+    f = c.func
+    return isinstance(f, ast.Attribute) and f.attr == target and isinstance(f.value, ast.Call) and call_name(f.value) == "super"
+
+
+def _extension_args(mod, cls, meth, bound, target, depth=0):
+    """terms (in the outermost caller's vocabulary) of the arguments with which method cls.meth, called with its parameters bound to
+    `bound`, calls the compiled base class (`super().<target>(...)`), directly or through methods of the same class; None when the
+    call is not found or not unique"""
+    fi = mod.funcs.get("%s.%s" % (cls, meth))
+    if fi is None or depth > 3:
+        return None
+    cfg, _ = _py_rin(fi)
+    ext = [(n, c) for n in cfg.nodes for c in rules.stmts_calls(n) if _is_super_call(c, target)]
+    if len(ext) == 1:
+        n, c = ext[0]
+        if c.keywords or any(isinstance(a, ast.Starred) for a in c.args):
+            return None
+        return [_term(fi, a, n.id, bound) for a in c.args]
+    if ext:
+        return None
+    found = []
+    for n in cfg.nodes:
+        for c in rules.stmts_calls(n):
+            f = c.func
+            nxt = None
+            if isinstance(f, ast.Attribute) and isinstance(f.value, ast.Name) and ("%s.%s" % (cls, f.attr)) in mod.funcs and f.attr != meth:
+                nxt = f.attr
+            elif isinstance(f, ast.Name) and f.id in ("cls", cls) and target == "__init__":
+                nxt = "__init__"
+            if nxt is None:
+                continue
+            callee = mod.funcs["%s.%s" % (cls, nxt)]
+            b = _bind(callee, c, 1, lambda a, n=n: _term(fi, a, n.id, bound))
+            if b is None:
+                continue
+            r = _extension_args(mod, cls, nxt, b, target, depth + 1)
+            if r is not None:
+                found.append(r)
+    return found[0] if len(found) == 1 else None
+
+
+def _judge_terms(got, want):
+    """True: every argument is the wanted caller value; False: some argument is positively something else (another parameter, a
+    literal, a value not computed from the wanted one); None: not resolved"""
+    if got is None or len(got) != len(want):
+        return None if got is None else False
+    verdict = True
+    for g, w in zip(got, want):
+        if g == w:
+            continue
+        if isinstance(g, tuple):
+            if w in g[1] and len(g[1]) == 1:
+                verdict = None if verdict is not False else False      # computed from the wanted value by something not in the table
+            else:
+                verdict = False
+        elif g is None:
+            verdict = None if verdict is not False else False
+        else:
+            verdict = False
+    return verdict
+
+
+def one_shot_rules(chk, hm):
+    """HTM.match builds a Matcher on the second point set at the tree's own depth and returns what matching the first set against it gives:
+    decided on what reaches the compiled Matcher (its constructor and its match method), whichever python entry points of the Matcher
+    class are used on the way"""
+    mod = hm.module
+    cfg, RIN = _py_rin(hm)
+    ctor = []
+    for n in cfg.nodes:
+        for c in rules.stmts_calls(n):
+            f = c.func
+            if isinstance(f, ast.Name) and f.id == "Matcher":
+                ctor.append((n, c, "__init__"))
+            elif isinstance(f, ast.Attribute) and isinstance(f.value, ast.Name) and f.value.id == "Matcher" and ("Matcher." + f.attr) in mod.funcs:
+                ctor.append((n, c, f.attr))
+    key1 = "HTM.match::builds-matcher-on-second-set-at-own-depth"
+    key2 = "HTM.match::delegates-first-set-radius-maxmatch-file"
+    msg1 = "the compiled Matcher is constructed with (self.get_depth(), ra2, dec2)"
+    msg2 = "and the method returns what the compiled Matcher.match gives for (ra1, dec1, radius, maxmatch, <checked file name>): the same code path as the reusable matcher"
+    if len(ctor) != 1:
+        chk.ob("R12.7", key1, None, hm.where(), msg1 + " -- %d constructions of a Matcher found in the method" % len(ctor))
+        chk.ob("R12.7", key2, None, hm.where(), msg2 + " -- not looked at")
+        return
+    n, c, meth = ctor[0]
+    callee = mod.funcs.get("Matcher." + meth)
+    got = None
+    if callee is not None:
+        b = _bind(callee, c, 1, lambda a: _term(hm, a, n.id, None))
+        if b is not None:
+            got = _extension_args(mod, "Matcher", meth, b, "__init__")
+    want = ["expr:self.get_depth()", "param:ra2", "param:dec2"]
+    chk.ob("R12.7", key1, _judge_terms(got, want), hm.where(c), msg1 + " (reaching it: %s)" % (got,))
+    # the object, and the value returned
+    a = n.ast
+    obj = a.targets[0].id if isinstance(a, ast.Assign) and a.value is c and len(a.targets) == 1 and isinstance(a.targets[0], ast.Name) else None
+    results = []
+    for r in cfg.nodes:
+        if r.kind != "return" or r.ast.value is None:
+            continue
+        v = r.ast.value
+        at = r.id
+        if isinstance(v, ast.Name):
+            ds = RIN.get(r.id, {}).get(v.id, set())
+            da = cfg.node(next(iter(ds))).ast if len(ds) == 1 and next(iter(ds)) != cfg.entry.id else None
+            if isinstance(da, ast.Assign) and len(da.targets) == 1 and isinstance(da.targets[0], ast.Name):
+                v, at = da.value, next(iter(ds))
+        results.append((r, v, at))
+    if not results:
+        chk.ob("R12.7", key2, None, hm.where(), msg2 + " -- no return statement")
+        return
+    verdicts = []
+    gots = []
+    for r, v, at in results:
+        ok = None
+        g2 = None
+        if isinstance(v, ast.Call) and isinstance(v.func, ast.Attribute) and ("Matcher." + v.func.attr) in mod.funcs:
+            recv = v.func.value
+            same = (recv is c) or (isinstance(recv, ast.Name) and obj is not None and recv.id == obj and RIN.get(at, {}).get(obj) == {n.id})
+            if same:
+                m2 = mod.funcs["Matcher." + v.func.attr]
+                b = _bind(m2, v, 1, lambda x, at=at: _term(hm, x, at, None))
+                if b is not None:
+                    g2 = _extension_args(mod, "Matcher", v.func.attr, b, "match")
+                ok = _judge_terms(g2, ["param:ra1", "param:dec1", "param:radius", "param:maxmatch", "param:file"])
+        verdicts.append(ok)
+        gots.append(g2)
+    ok = False if False in verdicts else (None if None in verdicts else True)
+    chk.ob("R12.7", key2, ok, hm.where(results[0][0].ast), msg2 + " (reaching it: %s)" % (gots,))
 
 
 def _size_checks(fi):
@@ -1010,10 +1967,30 @@ def python_rules(chk, repo, m):
     for f in (hm, mi, mm, rp, cf):
         chk.analysed_unit(f.qualname)
     for fi, names in ((hm, ["ra1", "dec1", "ra2", "dec2", "radius"]), (mi, ["ra", "dec"]), (mm, ["ra", "dec", "radius"])):
-        res = _norm_f8(fi, names)
+        # the arrays that the C++ Matcher object keeps a reference to (constructor) have to be private copies; the arrays of a match call
+        # are only read during the call, so there the demand is native float64 with >= 1 dimension, copied or not
+        keeps = names if fi is mi else ()
+        res = _norm_f8(fi, names, private=keeps)
         for n, ok in res.items():
             chk.ob("R12.7", "%s::%s-becomes-fresh-float64-1d" % (fi.qualname.split("htm.htm.")[-1], n), ok, fi.where(),
-                   "`%s = np.atleast_1d(%s).astype('f8')`: a fresh, native, 1-d float64 array (the C++ side reads *(double*) elements through the strides)" % (n, n))
+                   "wherever `%s` is handed on it is a native float64 ndarray with at least one dimension on every path, as `np.atleast_1d(%s).astype('f8')` makes it%s "
+                   "(the C++ side reads *(double*) elements through the strides: an unconverted, byte-swapped or other-typed array is read wrongly)"
+                   % (n, n, " - and a private copy, since the C++ object keeps a reference to it" if keeps else ""))
+    # both halves together: an input array that Matcher::match walks through its bare data pointer has to be handed over by the python
+    # wrapper as a new (hence contiguous) array; read through the strides, any layout will do
+    bare = unstrided_reads(m.decl)
+    at = f8_atoms(mm, ["ra", "dec", "radius"])
+    for cpar, pyname in zip((m.p_ra, m.p_dec, m.p_rad), ("ra", "dec", "radius")):
+        if ("param", cpar) in bare:
+            seen, nsink = at[pyname]
+            okc = None if not nsink else (True if seen <= {_F8P} else (False if seen & {_F8, _ARR, _RAW, _BAD} else None))
+        else:
+            okc = True
+        chk.ob("R12.7", "Matcher.match::%s-read-through-strides-or-contiguous" % pyname, okc, mm.where(),
+               "the elements of `%s` are read by the C++ side through the array's strides (PyArray_GETPTR1)%s"
+               % (pyname, "" if ("param", cpar) not in bare else " -- they are read through the bare data pointer, which is right only for a contiguous array: the python wrapper "
+                  "has to hand over a new array on every path (it may hand over: %s)" % sorted(at[pyname][0])))
+
     def _size(a):
         return ast.parse("%s.size" % a, mode="eval").body
 
@@ -1047,21 +2024,7 @@ def python_rules(chk, repo, m):
     r1 = se.run(cf, {"filename": None}, {"convert_none": True})
     chk.ob("R12.7", "check_filename[None,convert_none]", r1 == "", cf.where(), "check_filename(None, convert_none=True) == '' (got %r)" % (r1,))
     # one-shot: Matcher(depth, ra2, dec2).match(ra1, dec1, radius, maxmatch=maxmatch, file=filename)
-    ctor = [c for c in walk_no_nested(hm.node) if isinstance(c, ast.Call) and call_name(c) == "Matcher"]
-    ok = len(ctor) == 1 and len(ctor[0].args) == 3 and [norm(a) for a in ctor[0].args[1:]] == ["ra2", "dec2"]
-    ok = ok and rules.xnorm(ctor[0].args[0], hm.node) == "self.get_depth()"
-    chk.ob("R12.7", "HTM.match::builds-matcher-on-second-set-at-own-depth", bool(ok), hm.where(), "the one-shot method builds Matcher(self.get_depth(), ra2, dec2)")
-    calls = [c for c in walk_no_nested(hm.node) if isinstance(c, ast.Call) and isinstance(c.func, ast.Attribute) and c.func.attr == "match" and not (isinstance(c.func.value, ast.Call))]
-    ok = len(calls) == 1 and [norm(a) for a in calls[0].args] == ["ra1", "dec1", "radius"] and kwarg(calls[0], "maxmatch") is not None and norm(kwarg(calls[0], "maxmatch")) == "maxmatch" \
-        and kwarg(calls[0], "file") is not None
-    if ok:
-        fv = norm(kwarg(calls[0], "file"))
-        fd = [x for x in walk_no_nested(hm.node) if isinstance(x, ast.Assign) and norm(x.targets[0]) == fv]
-        ok = len(fd) == 1 and isinstance(fd[0].value, ast.Call) and call_name(fd[0].value) == "check_filename" and norm(fd[0].value.args[0]) == "file"
-        rets = [x for x in walk_no_nested(hm.node) if isinstance(x, ast.Return) and x.value is calls[0]]
-        ok = ok and len(rets) == 1
-    chk.ob("R12.7", "HTM.match::delegates-first-set-radius-maxmatch-file", bool(ok), hm.where(),
-           "and returns matcher.match(ra1, dec1, radius, maxmatch=maxmatch, file=<checked name>) unchanged (same code path as the reusable matcher)")
+    one_shot_rules(chk, hm)
     dm = hm.defaults.get("maxmatch"), mm.defaults.get("maxmatch")
     chk.ob("R12.7", "maxmatch-defaults-agree", all(d is not None for d in dm) and const_value(dm[0]) == const_value(dm[1]), hm.where(), "both entry points default to the same maxmatch (%s)" % [const_value(d) for d in dm])
     # pair file format <-> reader
@@ -1083,7 +2046,8 @@ def python_rules(chk, repo, m):
                     dt = ast.literal_eval(dexpr)
                 except Exception:
                     dt = None
-    ok = fmt is not None and dt is not None and delim is not None
+    located = fmt is not None and dt is not None and delim is not None
+    ok = located
     if ok:
         pd = cstr.printf_directives(fmt)
         convs = pd["directives"]
@@ -1099,8 +2063,11 @@ def python_rules(chk, repo, m):
                 else:
                     ok = False
             ok = ok and [nm for nm, ty in dt] == ["i1", "i2", "d12"] and lits == [delim, delim, "\n"]
-    chk.ob("R12.5", "pair-file-format-agrees-with-reader", bool(ok), rp.where(),
-           "fprintf format %r writes long, long, double(%%.16g or better) separated by the reader's delimiter %r and ended by a newline; the reader's dtype is %s" % (fmt, delim, dt))
+    # a locator first: when the statement that writes a pair is not in the emission loop of Matcher::match (moved into a class or helper that
+    # is not followed) or the reader's Recfile(...) call is not found, the two sides cannot be compared and nothing is contradicted
+    chk.ob("R12.5", "pair-file-format-agrees-with-reader", bool(ok) if located else None, rp.where(),
+           "fprintf format %r writes long, long, double(%%.16g or better) separated by the reader's delimiter %r and ended by a newline; the reader's dtype is %s%s"
+           % (fmt, delim, dt, "" if located else " -- not compared: " + ("the fprintf of a pair was not located in Matcher::match" if fmt is None else "the reader's dtype / delimiter was not located")))
 
 
 # ---------------------------------------------------------------------------
